@@ -190,6 +190,25 @@ class Engine:
             self.syntactic = getattr(self, "syntactic", 0) + 1
             assertions = [smt.FALSE]
         res, model = self.solver.check(assertions, want_model)
+        if res == "unknown":
+            # z3's nlsat is sensitive to seeds and accumulated state: retry once on a fresh process with another seed,
+            # then ask cvc5 (second opinion); a remaining `unknown` stays inconclusive
+            self.retries = getattr(self, "retries", 0) + 1
+            try:
+                alt = smt.Solver("z3", seed=self.solver.seed + 17, timeout_ms=self.solver.timeout_ms)
+                res, model = alt.check(assertions, want_model)
+                alt.close()
+            except Exception:
+                res = "unknown"
+            if res == "unknown":
+                try:
+                    c5 = smt.Solver("cvc5", timeout_ms=self.solver.timeout_ms)
+                    res, model = c5.check(assertions, want_model)
+                    c5.close()
+                    if res != "unknown":
+                        self.cvc5_decided = getattr(self, "cvc5_decided", 0) + 1
+                except Exception:
+                    res = "unknown"
         self.queries[res] += 1
         return res, model
 
